@@ -17,7 +17,7 @@ m['results']={}
 for l in out.splitlines():
     p=l.split()[0]; verdict=l.split()[1]
     sigs=re.findall(r'\[([^\]]+)\]',l)
-    m['results'][p]={"verdict":verdict,"tier":"quick","seed":1,"signatures":sigs}
+    m["results"][p]={"verdict":verdict,"tier":"quick","seed":int(__import__("os").environ.get("VERIF_SEED","1")),"signatures":sigs}
 m['ran']="tools/try_patch.sh (git -C /repo apply; ./check <id> quick; git -C /repo checkout -- .)"
 json.dump(m,open(d+'/meta.json','w'),indent=1)
 PY
